@@ -485,6 +485,9 @@ func (idx *Index) Cleave(cleaveLabel uint64, toCleave []uint64, mutInfo dvid.Mut
 type SupervoxelChanges map[uint64]map[dvid.IZYXString]int32
 
 // ModifyBlocks modifies the receiver Index to incorporate supervoxel changes among the given blocks.
+// Every supervoxel in the passed changes must map to the label of this index; the caller decides
+// membership from the mapping because a supervoxel that currently has no voxels (all of them were
+// overwritten) is absent from the index yet still belongs to the label.
 func (idx *Index) ModifyBlocks(label uint64, sc SupervoxelChanges) error {
 	if idx == nil {
 		return fmt.Errorf("cannot pass nil index into ModifyBlocks()")
@@ -492,40 +495,33 @@ func (idx *Index) ModifyBlocks(label uint64, sc SupervoxelChanges) error {
 	if idx.Blocks == nil {
 		idx.Blocks = make(map[uint64]*proto.SVCount)
 	}
-	labelSupervoxels := idx.GetSupervoxels()
-	if len(labelSupervoxels) == 0 {
-		labelSupervoxels[label] = struct{}{} // A new index has at least its original label
-	}
 	for supervoxel, blockChanges := range sc {
-		_, inSet := labelSupervoxels[supervoxel]
-		if inSet {
-			for izyxStr, delta := range blockChanges {
-				zyx, err := IZYXStringToBlockIndex(izyxStr)
-				if err != nil {
-					return err
+		for izyxStr, delta := range blockChanges {
+			zyx, err := IZYXStringToBlockIndex(izyxStr)
+			if err != nil {
+				return err
+			}
+			svc, found := idx.Blocks[zyx]
+			if found && svc != nil {
+				oldsz := svc.Counts[supervoxel]
+				newsz := oldsz
+				if delta < 0 && uint32(-delta) > oldsz {
+					return fmt.Errorf("bad attempt to subtract %d from %d voxels for supervoxel %d in block %s", -delta, oldsz, supervoxel, izyxStr)
 				}
-				svc, found := idx.Blocks[zyx]
-				if found && svc != nil {
-					oldsz := svc.Counts[supervoxel]
-					newsz := oldsz
-					if delta < 0 && uint32(-delta) > oldsz {
-						return fmt.Errorf("bad attempt to subtract %d from %d voxels for supervoxel %d in block %s", -delta, oldsz, supervoxel, izyxStr)
-					}
-					newsz = uint32(int64(oldsz) + int64(delta))
-					if newsz == 0 {
-						delete(svc.Counts, supervoxel)
-					} else {
-						svc.Counts[supervoxel] = newsz
-					}
+				newsz = uint32(int64(oldsz) + int64(delta))
+				if newsz == 0 {
+					delete(svc.Counts, supervoxel)
 				} else {
-					svc = new(proto.SVCount)
-					svc.Counts = make(map[uint64]uint32)
-					if delta < 0 {
-						return fmt.Errorf("bad attempt to subtract %d voxels from supervoxel %d in block %s when it wasn't previously in that block", -delta, supervoxel, izyxStr)
-					}
-					svc.Counts[supervoxel] = uint32(delta)
-					idx.Blocks[zyx] = svc
+					svc.Counts[supervoxel] = newsz
 				}
+			} else {
+				svc = new(proto.SVCount)
+				svc.Counts = make(map[uint64]uint32)
+				if delta < 0 {
+					return fmt.Errorf("bad attempt to subtract %d voxels from supervoxel %d in block %s when it wasn't previously in that block", -delta, supervoxel, izyxStr)
+				}
+				svc.Counts[supervoxel] = uint32(delta)
+				idx.Blocks[zyx] = svc
 			}
 		}
 	}
